@@ -1445,4 +1445,98 @@ theorem InvW.run {acts : List Act} {s s' : St} (h : InvW s) (hr : Pool.run s act
       rw [hs] at hr
       exact ih (h.step hs fun n e => hn n (e ▸ List.mem_cons_self)) hr fun n hm => hn n (List.mem_cons_of_mem _ hm)
 
+/-! ## queued work items always hold a callback (used for progress, C02) -/
+
+/-- every queued work item has at least one pending callback -/
+def QNE (s : St) : Prop := ∀ q, s.wq = some q → ∀ w ∈ q, w.pending ≠ []
+
+theorem takeNext_subset (q : List Work) (rw : List Nat) : ∀ w ∈ (takeNext q rw).2.1, w ∈ q := by
+  induction q generalizing rw with
+  | nil => intro w hw; simp [takeNext] at hw
+  | cons a r ih =>
+    intro w hw
+    unfold takeNext at hw
+    split at hw
+    · exact List.mem_cons_of_mem _ hw
+    · exact List.mem_cons_of_mem _ (ih _ w hw)
+
+theorem loopTop_subset (wq : Option (List Work)) (rw : List Nat) (q' : List Work)
+    (h : (loopTop wq rw).2.1 = some q') : ∃ q, wq = some q ∧ ∀ w ∈ q', w ∈ q := by
+  cases wq with
+  | none => simp [loopTop] at h
+  | some q =>
+    refine ⟨q, rfl, ?_⟩
+    have hs := takeNext_subset q rw
+    unfold loopTop at h
+    simp only at h
+    rcases ht : takeNext q rw with ⟨o, rest, rw'⟩
+    rw [ht] at h hs
+    cases o with
+    | none => simp only [Option.some.injEq] at h; subst h; exact hs
+    | some p => obtain ⟨w, f⟩ := p; simp only [Option.some.injEq] at h; subst h; exact hs
+
+theorem QNE.relook {s : St} (h : QNE s) (i : Nat) : QNE (relook s i) := by
+  intro q' hq' w hw
+  have hq'' : (loopTop s.wq s.rwork).2.1 = some q' := by simpa [Pool.relook, setWorker] using hq'
+  obtain ⟨q, hq, hsub⟩ := loopTop_subset _ _ _ hq''
+  exact h q hq w (hsub w hw)
+
+theorem QNE.init : QNE init := by intro q hq; cases hq
+
+theorem QNE.step {s s' : St} {a : Act} (h : QNE s) (hs : Step s a s') : QNE s' := by
+  cases hs with
+  | serve => intro q hq w hw; simp [served] at hq; subst hq; cases hw
+  | checkFail => exact h
+  | checkPass => exact h
+  | lockClosed tid t wid cb hf hq => intro q hq'; have : s.wq = some q := hq'; exact absurd (hq.symm.trans this) (by simp)
+  | lockAppend tid t wid cb q hf hq =>
+    intro q' hq' w hw
+    simp only [subAppend, Option.some.injEq] at hq'
+    subst hq'
+    obtain ⟨w0, hw0, rfl⟩ := List.mem_map.mp hw
+    unfold appendWork
+    split
+    · simp
+    · exact h q hq w0 hw0
+  | lockNew tid t wid cb q hf hq =>
+    intro q' hq' w hw
+    simp only [subNew, Option.some.injEq] at hq'
+    subst hq'
+    rcases List.mem_append.mp hw with hw | hw
+    · exact h q hq w hw
+    · simp at hw; subst hw; simp
+  | signalSome => exact h
+  | signalNone => exact h
+  | wStart => exact h.relook _
+  | wWake => exact h.relook _
+  | wSpurious => exact h.relook _
+  | doneNext i w cb f fs => intro q hq; exact h q (by simpa [next, setWorker] using hq)
+  | doneLast i w cb =>
+    have hf : QNE (finish s i w cb) := by intro q hq; exact h q (by simpa [finish] using hq)
+    exact hf.relook _
+  | shutdownCas => exact h
+  | closeLock => intro q hq; cases hq
+  | closeBroadcast hp hq =>
+    intro q hq'
+    have h2 : (broadcast s).wq = s.wq := rfl
+    rw [h2, hq] at hq'
+    cases hq'
+  | shutdownDone hp hq => intro q hq'; have : s.wq = some q := hq'; exact absurd (hq.symm.trans this) (by simp)
+
+theorem QNE.run {acts : List Act} {s0 s : St} (h0 : QNE s0) (hr : Pool.run s0 acts = some s) : QNE s := by
+  induction acts generalizing s0 with
+  | nil => simp [Pool.run] at hr; exact hr ▸ h0
+  | cons a r ih =>
+    simp only [Pool.run] at hr
+    cases hst : Pool.step s0 a with
+    | none => simp [hst] at hr
+    | some s1 => rw [hst] at hr; exact ih (h0.step (step_Step hst)) hr
+
+theorem QNE.reachable {acts : List Act} {s : St} (h : Pool.run Pool.init acts = some s) : QNE s :=
+  QNE.run QNE.init h
+
+theorem loopTop_head (wid f : Nat) (fs : List Nat) (rest : List Work) (rw : List Nat) :
+    loopTop (some (⟨wid, f :: fs⟩ :: rest)) rw = (.running ⟨wid, fs⟩ f, some rest, rw) := by
+  simp [loopTop, takeNext]
+
 end GoRes.Pool
